@@ -463,6 +463,63 @@ func verifC36Str(r *verifutil.Rand, hostile bool, base string) string {
 	return base
 }
 
+// the spellings of an id that github.com/google/uuid.Parse accepts (it ignores case, a urn:uuid: prefix,
+// any two bytes wrapped around the 36-byte form, and the dash-less 32-digit form), and near-misses
+func verifC36IDVariant(r *verifutil.Rand, id string) string {
+	nodash := strings.ReplaceAll(id, "-", "")
+	flip := func(s string) string { // change one hex digit
+		b := []byte(s)
+		for k := 0; k < 40; k++ {
+			i := r.Intn(len(b))
+			if b[i] != '-' {
+				if b[i] == '0' {
+					b[i] = '1'
+				} else {
+					b[i] = '0'
+				}
+				break
+			}
+		}
+		return string(b)
+	}
+	switch r.Intn(16) {
+	case 0, 1:
+		return id
+	case 2, 3:
+		return strings.ToUpper(id)
+	case 4:
+		return "urn:uuid:" + id
+	case 5:
+		return "URN:UUID:" + strings.ToUpper(id)
+	case 6:
+		return "{" + id + "}"
+	case 7:
+		return "(" + strings.ToUpper(id) + ")"
+	case 8:
+		return nodash
+	case 9:
+		return strings.ToUpper(nodash)
+	case 10:
+		b := []byte(id) // mixed case
+		for i := range b {
+			if i%2 == 0 && b[i] >= 'a' && b[i] <= 'f' {
+				b[i] -= 32
+			}
+		}
+		return string(b)
+	case 11:
+		return flip(id)
+	case 12:
+		return strings.ToUpper(flip(id))
+	case 13:
+		return id[:len(id)-1]
+	case 14:
+		return id + "0"
+	default:
+		return " " + id
+	}
+}
+
 func verifC36UUID(r *verifutil.Rand) string {
 	var u uuid.UUID
 	copy(u[:], r.Bytes(16))
@@ -601,6 +658,22 @@ func verifC36GenScrape(r *verifutil.Rand, thorough bool) string {
 		}
 	case 2:
 		query = r.Pick("path=nonexistent", "rtsp_session="+verifC36UUID(r), "type=paths&path=cam0", "hls_muxer=cam0")
+	case 3, 4:
+		// an id filter that names an existing entity in every spelling uuid.Parse accepts, and near-misses:
+		// whatever the filter selects, the id label must be the entity's own (canonical) id
+		var idEnts []verifC36Entity
+		for _, e := range ents {
+			if e.label("id") != "" {
+				idEnts = append(idEnts, e)
+			}
+		}
+		if len(idEnts) > 0 {
+			e := idEnts[r.Intn(len(idEnts))]
+			query = verifC36Sec(e.section).filter + "=" + url.QueryEscape(verifC36IDVariant(r, e.label("id")))
+			if r.Chance(1, 5) {
+				query = "type=" + e.section + "&" + query
+			}
+		}
 	}
 
 	var sb strings.Builder
